@@ -112,6 +112,14 @@ impl Ctx {
 
     pub fn violation(&mut self, signature: impl Into<String>, detail: impl Into<String>, witness: Value) {
         let signature = signature.into();
+        // a clause owned by another property that fails during this property's workload is that
+        // property's business (its own check runs the same workload with that clause in focus)
+        if !signature.starts_with(&format!("{} ", self.prop)) && self.prop.starts_with('C') {
+            self.count(&format!("other-property-clause-failed:{}", signature.split(' ').next().unwrap_or("")));
+            let n = format!("[{}] {}", signature.split(' ').next().unwrap_or(""), signature);
+            self.note(n);
+            return;
+        }
         // keep the first witness per signature, count the rest
         self.count(&format!("violation:{signature}"));
         if self.violations.iter().any(|v| v.signature == signature) {
